@@ -7,6 +7,7 @@
 
 from pymtl3.datatypes import Bits, is_bitstruct_inst
 from pymtl3.passes.backends.verilog.errors import VerilogTranslationError
+from pymtl3.passes.backends.verilog.util.utility import sized_decimal
 from pymtl3.passes.backends.verilog.translation.behavioral.VBehavioralTranslatorL3 import (
     BehavioralRTLIRToVVisitorL3,
     VBehavioralTranslatorL3,
@@ -37,8 +38,7 @@ class YosysBehavioralRTLIRToVVisitorL3(
   """
 
   def _literal_number( s, nbits, value ):
-    value = int( value )
-    return f"{nbits}'d{value}"
+    return sized_decimal( nbits, value )
 
   def _struct_instance( s, dtype, struct ):
     def _gen_packed_array( dtype, n_dim, array ):
